@@ -12,6 +12,8 @@
   SSE1: array length, cell lengths, table size and entry lengths are functions of the configuration (`SSE1.shape`).
   DP17: the arrays A_j (bucket count and byte length of every bucket) are a function of N and the configuration
   (`DP17.arrays_shape`); the hash table is covered by the correspondence and the direct oracle.
+  SSE2: exactly N entries, one per posting, with addresses in the PRP's `8·l + bits(n+max)`-bit range (`SSE2.shape`), so
+  equal N give equally large indexes (`SSE2.shape_indistinguishable`); the identifiers are stored in clear by design.
   CT14: the whole index shape is `CT14.shapeFor cfg ⌈log2 N⌉` (`CT14.shape`).
   ANSS16: the whole index shape is `shapeFor cfg ⌈log2 N⌉` (`ANSS16.shape`): number of tables, entries per table and all
   lengths; the level-table bound that makes the padding sufficient (at most 2^(t+1-j) lists at level j) is part of it.
@@ -24,6 +26,7 @@ import SSEPyVerif.Proofs.Schemes.ANSS16Shape
 import SSEPyVerif.Proofs.Schemes.CT14Shape
 import SSEPyVerif.Proofs.Schemes.SSE1Shape
 import SSEPyVerif.Proofs.Schemes.DP17Shape
+import SSEPyVerif.Proofs.Schemes.SSE2Shape
 namespace SSEPy.C05
 open SSEPy.Sch SSEPy.Sch.Chain
 
@@ -314,5 +317,66 @@ theorem DP17.arrays_shape (raw : RawCfg) (cfg : DP17Cfg) (hcfg : DP17.cfgBuild r
     (fun key iv msg c hiv he => ske_dec_enc lv hl cfg.rnd hplain key iv msg c hiv he) hl.enc_len
     (cfg.idSize + cfg.lambda).toNat hclen k1 k2 k3 db t t' edb hs
     (fun p hp id hid => by have := hidl p hp id hid; omega) levels hlv hnd
+
+/-- SSE-2 (schemes/CGKO06/SSE2): the index has EXACTLY `N` entries — one per posting, no two postings share an address
+    and nothing else is stored — and every address lies in the `8·param_l + bits(n + max)`-bit range of the PRP: the only
+    thing the size of the index tells is `N`.  For every accepted configuration, key and valid database (distinct
+    keywords without a leading NUL byte, no identifier posted more than `param_max` times — so that the filler loop is
+    empty).  The values are the identifiers in clear, as the scheme's definition has it. -/
+theorem SSE2.shape (raw : RawCfg) (cfg : SSE2Cfg) (hcfg : SSE2.cfgBuild raw = .ok cfg) (lv : Leaves) (hl : LeafLaws lv)
+    (K1 : Bytes) (db : DB) (I : ITable) (hs : SSE2.setup cfg lv K1 db = .ok I) (hkeys : (db.map (·.1)).Nodup)
+    (hvalid : ∀ p ∈ db, NoLeadingNul p.1) (hcap : ∀ id, (db.flatMap (·.2)).count id ≤ cfg.max) :
+    I.length = db.total ∧ ∀ e ∈ I, e.1 < 2 ^ ((cfg.l * 8).toNat + cfg.bitsNM) := by
+  obtain ⟨hu, _, _⟩ := SSE2.cfgBuild_usable raw cfg hcfg
+  have hl8 : 0 < (cfg.l * 8).toNat := by have := hu.lpos; omega
+  have addrOf_ok : ∀ w j a, SSE2.addrOf cfg lv K1 w j = some a → SSE2.addr cfg lv K1 w (j : Int) = .ok a := by
+    intro w j a h
+    unfold SSE2.addrOf at h
+    split at h
+    · rename_i a' ha; cases h; exact ha
+    · cases h
+  have inj := SSE2.addr_inj cfg lv hl.hmac_len hl8 hu.bits K1
+  have hinj : SSE2.AddrInj cfg lv K1 db := by
+    intro w ids i w' ids' i' a h1 h2 hi hi' he he'
+    have := inj w w' (1 + i) (1 + i') a (hvalid _ h1) (hvalid _ h2) (addrOf_ok _ _ _ he) (addrOf_ok _ _ _ he')
+    exact ⟨this.1, by omega⟩
+  unfold SSE2.setup at hs
+  simp only [bind, Except.bind] at hs
+  split at hs
+  · cases hs
+  · rename_i r hr
+    obtain ⟨I0, cnt⟩ := r
+    have hI : I = I0 := by
+      simp only at hs
+      split at hs
+      · have hcap' : ∀ p ∈ cnt, p.2 ≤ cfg.max := fun p hp => by
+          have := SSE2.encDb_cnt cfg lv K1 db [] [] [] I0 cnt hr (fun q hq => by cases hq) p hp
+          simp only [List.nil_append] at this
+          exact Nat.le_trans this (hcap p.1)
+        rw [SSE2.fillAll_noop cfg lv K1 cnt _ I0 hcap'] at hs; cases hs; rfl
+      · cases hs; rfl
+    subst hI
+    obtain ⟨as, h1, h2, h3⟩ := SSE2.encDb_keys cfg lv K1 db [] [] I cnt hr hkeys hinj (fun a _ => by simp)
+    simp only [List.map_nil, List.nil_append] at h1
+    refine ⟨by rw [← h2, ← h1, List.length_map], ?_⟩
+    intro e he
+    have hmem : e.1 ∈ as := by rw [← h1]; exact List.mem_map.mpr ⟨e, he, rfl⟩
+    obtain ⟨w, ids, i, _, _, hao⟩ := h3 e.1 hmem
+    obtain ⟨_, hsp⟩ := SSE2.addr_spec cfg lv hl.hmac_len hl8 hu.bits K1
+    obtain ⟨out, ov, ol, _, _, owf⟩ := hsp w (1 + i) e.1 (addrOf_ok _ _ _ hao)
+    unfold Bitset.WF at owf
+    rw [ov, ol] at owf
+    exact owf
+
+/-- two databases with the same number of postings give SSE-2 indexes with the same number of entries -/
+theorem SSE2.shape_indistinguishable (raw : RawCfg) (cfg : SSE2Cfg) (hcfg : SSE2.cfgBuild raw = .ok cfg) (lv : Leaves)
+    (hl : LeafLaws lv) (K1 K1' : Bytes) (db db' : DB) (I I' : ITable)
+    (hs : SSE2.setup cfg lv K1 db = .ok I) (hs' : SSE2.setup cfg lv K1' db' = .ok I')
+    (hkeys : (db.map (·.1)).Nodup) (hkeys' : (db'.map (·.1)).Nodup)
+    (hvalid : ∀ p ∈ db, NoLeadingNul p.1) (hvalid' : ∀ p ∈ db', NoLeadingNul p.1)
+    (hcap : ∀ id, (db.flatMap (·.2)).count id ≤ cfg.max) (hcap' : ∀ id, (db'.flatMap (·.2)).count id ≤ cfg.max)
+    (hN : db.total = db'.total) : I.length = I'.length := by
+  rw [(SSE2.shape raw cfg hcfg lv hl K1 db I hs hkeys hvalid hcap).1,
+    (SSE2.shape raw cfg hcfg lv hl K1' db' I' hs' hkeys' hvalid' hcap').1, hN]
 
 end SSEPy.C05
